@@ -163,7 +163,8 @@ def run(ck):
         a_cfg = family.generate(sc["seed"]) if sc["kind"] == "family" else world.load_cfg(sc["path"])
         a_nmne = None if "nmne" in patch and patch["nmne"] is None else patch.get("nmne", a_cfg["simulation"]["network"].get("nmne_config"))
         others = [(n, dict(o, b_patch=dict(o["b_patch"], nmne=a_nmne)) if "same-nmne" in n else o) for n, o in others0]
-        base = {"a": sc, "a_patch": patch, "seed": 5, "reset_seed": 21, "action_seed": 8, "steps": steps, "idle": bool(patch.get("early_attacker"))}
+        base = {"a": sc, "a_patch": patch, "seed": 5, "reset_seed": 21, "action_seed": 8, "steps": steps, "idle": bool(patch.get("early_attacker")),
+                "pings": sc["kind"] == "family"}          # echo traffic in every episode of the generated networks
         jobs.append((name, "reference", dict(base, measure_episode=1, dirty=False, other=None)))
         jobs.append((name, "after-dirty-episodes", dict(base, measure_episode=3, dirty=True, other=None)))
         jobs.append((name, "after-clean-episodes", dict(base, measure_episode=3, dirty=False, other=None)))
